@@ -306,6 +306,29 @@ impl portmatching::Predicate<LoggedPG> for PGPredicate {
     }
 }
 
+/// Systematic "decoy" hosts: the pattern itself plus ONE extra port on one of its nodes, linked
+/// to one fresh node (all nodes, both directions). An occurrence of the pattern survives, but the
+/// extra link offers the secondary-root search a wrong candidate next to the right one.
+pub fn decoy_hosts(p: &GDesc) -> Vec<GDesc> {
+    let mut out = vec![];
+    for n in p.live() {
+        let (i, o) = p.nodes[n].unwrap();
+        // extra outgoing port on n -> fresh node's in port 0
+        let mut h = p.clone();
+        h.nodes[n] = Some((i, o + 1));
+        h.nodes.push(Some((1, 0)));
+        h.links.push(((n, o), (h.nodes.len() - 1, 0)));
+        out.push(h);
+        // fresh node's out port 0 -> extra incoming port on n
+        let mut h = p.clone();
+        h.nodes[n] = Some((i + 1, o));
+        h.nodes.push(Some((0, 1)));
+        h.links.push(((h.nodes.len() - 1, 0), (n, i)));
+        out.push(h);
+    }
+    out
+}
+
 pub type PgPat = (GDesc, Option<usize>);
 
 pub fn pg_case(
@@ -434,6 +457,13 @@ pub fn run_e2e(seed: u64, thorough: bool, n: usize) {
         if rng.chance(1, 3) {
             // the pattern itself as host (self-match)
             hosts.push(rng.pick(&pats).0.clone());
+        }
+        if rng.chance(1, 4) {
+            // the pattern plus one extra link to a fresh node
+            let d = decoy_hosts(&rng.pick(&pats).0);
+            if !d.is_empty() {
+                hosts.push(rng.pick(&d).clone());
+            }
         }
         pg_case("E2E", &pats, true, &heur, &hosts);
     }
